@@ -102,7 +102,7 @@ def main(tier, replay):
         "the smaller data and the rows of the set-up geometry), pre-/post- data processors of set_input/get_output (harness-defined, exact "
         "on small integers: image*=c, the symmetric stencil [1 2 1] along x, one that fails -> err; get_output twice; "
         "back_project(image,..); removal of the processor), the projectors handed out by ProjectorByBinPairUsingSeparateProjectors, "
-        "(once build/fixes/C04-3 is in /repo) Presmoothing/Postsmoothing projectors as forward_project / back_project with the stencil as "
+        "(once docs/fixes/C04-3 is in /repo) Presmoothing/Postsmoothing projectors as forward_project / back_project with the stencil as "
         "processor, and ProjMatrixElemsForOneBin::forward_project/back_project called directly on random rows (planes outside the image, "
         "bins that come in with a value, data == 0). "
         "HISTORIES (ops mnew/mset/mdef/mget + the projection ops): 3 (thorough 12) histories - cylindrical non-TOF, TOF, span 3, blocks - in "
@@ -135,7 +135,7 @@ def main(tier, replay):
         "parser), 4/6/8 and 6-20 views (multiples of 4, 4k+2; an odd number must be refused by set_up), odd/even image sizes, "
         "2R-3/2R-1/2R+1 planes, z origin off by whole planes, first plane not 0 and extra columns (half of the on-the-fly worlds; a fixed "
         "probe decides whether the projector handles such grids: if it shows exactly the signature `planes of negative index ignored` "
-        "this is the known candidate on-the-fly-raytracing:image-first-plane-not-0 (repair build/fixes/C04-4.diff), grids with a "
+        "this is the known candidate on-the-fly-raytracing:image-first-plane-not-0 (repair docs/fixes/C04-4.diff), grids with a "
         "positive first plane are then not given to it and on those with a negative one only the whole-data comparison is made, "
         "against the projection of the image without these planes), anisotropic voxels, voxel z = ring spacing, span 1/3: whole data, subsets, "
         "a smaller ProjData (vs its own whole-data projection and vs the matrix), a x2 pre-processor (bitwise), and for EVERY segment "
@@ -198,13 +198,13 @@ def main(tier, replay):
         "smaller ProjData keep the views and TOF bins of the set-up geometry and are trimmed symmetrically in +-segment "
         "(ProjDataInfo::operator>= admits nothing else for views/TOF; asymmetric segment ranges are not exercised)",
         "Presmoothing/Postsmoothing projectors do not use the image passed in / return zeros in the unrepaired tree: reported as known "
-        "candidates, no differential for them until build/fixes/C04-3.diff is committed",
+        "candidates, no differential for them until docs/fixes/C04-3.diff is committed",
         "histories: what the matrix type computes for a geometry and the symmetry operations are data for MatrixObj (the driver treats every "
         "bin as basic and takes the row of a fresh matrix as `compute`); the theorems about MatrixObj assume coherent symmetries (basic bin "
         "of a basic bin = itself, its operation = identity); the setters of the matrix parameters (which reset already_setup) and a change "
         "of enable_cache / store_only_basic_bins_in_cache between set_ups are not part of the histories; x/y origin shifts are refused by the "
         "matrix and not generated",
-        "on-the-fly projector on grids whose first plane is not 0: compared fully only once build/fixes/C04-4.diff is in /repo",
+        "on-the-fly projector on grids whose first plane is not 0: compared fully only once docs/fixes/C04-4.diff is in /repo",
         "extra columns/rows in x/y are not combined with x/y-anisotropic voxels: proj_Siddon also reads the voxel with x and y exchanged "
         "(for its 90-degrees symmetries, used or not) and reads outside an image whose centred x and y extents differ in voxels when "
         "voxel_size.x != voxel_size.y (seen as a crash of the repaired tree on planes 1..1, y -3..4, x -5..5, voxels 29.7 x 37.1 mm); "
